@@ -311,6 +311,28 @@ def install():
     _note("struct.pack of a symbolic int -> n fresh byte variables with v == sum b_i*256^i (unique decomposition), range check as struct.error")
     _note("struct.pack/unpack f,d -> float tokens F32/F64(bits) (C float conversion trusted); ints via CrossHair structlib")
 
+
+    # ---- decimal rendering of a symbolic int: fresh digit variables with ONE linear constraint
+    # v == sum d_k*10^k (0 <= d_k <= 9; unique), forks on the digit count only
+    def _int_repr(self):
+        if self < 0:
+            return "-" + (-self).__repr__()
+        nd = 1
+        while self >= 10 ** nd:
+            nd += 1
+        with NoTracing():
+            space = context_statespace()
+            tag = space.uniq()
+            ds = [_z3.Int(f"dg{tag}_{k}") for k in range(nd)]
+            for d in ds:
+                space.add(_z3.And(d >= 0, d <= 9))
+            space.add(self.var == _z3.Sum([ds[k] * (10 ** k) for k in range(nd)]))
+            cps = [SymbolicInt(48 + ds[k]) for k in reversed(range(nd))]
+            return LazyIntSymbolicStr(cps)
+
+    _bl.SymbolicInt.__repr__ = _int_repr
+    _note("str()/repr()/format(int,'') of a symbolic int -> fresh digit variables with v == sum d_k*10^k, forks on digit count only")
+
     # ---- format()
     _orig_format = _core._PATCH_REGISTRATIONS[format]
 
